@@ -124,15 +124,41 @@ Proof.
   rewrite bto_app. change (skipn (Z.to_nat (blen p)) (p ++ t)) with (bfrom (p ++ t) (blen p)). apply bfrom_app.
 Qed.
 
+(* option_list(): a list already in non-decreasing number order is left alone *)
+Lemma insert_opt_last o acc : (forall x, In x acc -> fst x <= fst o) -> insert_opt o acc = acc ++ [o].
+Proof.
+  induction acc as [|x acc IH]; intros H; [reflexivity|].
+  cbn [insert_opt]. replace (fst o <? fst x) with false by (specialize (H x (or_introl eq_refl)); lia).
+  cbn [app]. f_equal. apply IH. intros y Hy. apply H. right. exact Hy.
+Qed.
+Lemma option_list_sorted_aux : forall os cur acc, opts_ok cur os = true -> (forall x, In x acc -> fst x <= cur) ->
+  fold_left (fun acc o => insert_opt o acc) os acc = acc ++ os.
+Proof.
+  induction os as [|o r IH]; intros cur acc Hok Hacc; [cbn; rewrite app_nil_r; reflexivity|].
+  cbn [opts_ok] in Hok. apply andb_prop in Hok as [Ho Hr]. unfold opt_ok in Ho.
+  repeat (apply andb_prop in Ho as [Ho ?]).
+  cbn [fold_left]. rewrite insert_opt_last by (intros x Hx; specialize (Hacc x Hx); lia).
+  rewrite (IH (fst o) (acc ++ [o]) Hr).
+  - rewrite <- app_assoc. reflexivity.
+  - intros x Hx. apply in_app_or in Hx as [Hx|[<-|[]]]; [specialize (Hacc x Hx); lia|lia].
+Qed.
+Lemma option_list_sorted_id cur os : opts_ok cur os = true -> option_list os = os.
+Proof. intros H. unfold option_list. rewrite (option_list_sorted_aux os cur [] H); [reflexivity|intros x []]. Qed.
+Lemma canon_ok m : msg_ok m = true -> canon m = m.
+Proof.
+  intros H. unfold msg_ok in H. repeat (apply andb_prop in H as [H ?]).
+  unfold canon. rewrite (option_list_sorted_id 0 (opts m)) by assumption. destruct m; reflexivity.
+Qed.
+
 Lemma serialize_inv m b : serialize m = Ok b ->
-  exists od, options_encode (opts m) = Ok od /\
+  exists od, options_encode (option_list (opts m)) = Ok od /\
     let data := od ++ (match payload m with [] => [] | _ => 255 :: payload m end) in
     0 <= blen data < 65805 + 2 ^ 32 /\ blen (token m) <= 8 /\
     b = (Z.lor (Z.shiftl (fst (rfc8323_len (blen data))) 4) (blen (token m)) :: snd (rfc8323_len (blen data)))
         ++ [code m] ++ token m ++ data.
 Proof.
   unfold serialize. intros H.
-  destruct (options_encode (opts m)) as [od|] eqn:Hod; [|discriminate]. cbn [bind] in H.
+  destruct (options_encode (option_list (opts m))) as [od|] eqn:Hod; [|discriminate]. cbn [bind] in H.
   exists od. split; [reflexivity|]. cbv zeta.
   set (data := od ++ match payload m with [] => [] | _ :: _ => 255 :: payload m end) in *.
   pose proof (blen_nonneg data) as Hd0.
@@ -144,14 +170,14 @@ Proof.
   injection H as H. split; [lia|]. split; [lia|]. rewrite <- H. reflexivity.
 Qed.
 
-Lemma decode_serialize : forall m b, msg_ok m = true -> serialize m = Ok b ->
-  decode_message b = Ok m /\ bytes_ok b = true /\
+Lemma decode_serialize_any : forall m b, msg_ok (canon m) = true -> serialize m = Ok b ->
+  decode_message b = Ok (canon m) /\ bytes_ok b = true /\
   exists a l, header b = Some (a, blen (token m), l) /\ a + blen (token m) + l = blen b /\ 2 <= a.
 Proof.
   intros m b Hok Hser.
   destruct (serialize_inv m b Hser) as (od & Hod & Hn & Htk & Hb). cbv zeta in *.
   set (data := od ++ match payload m with [] => [] | _ :: _ => 255 :: payload m end) in *.
-  unfold msg_ok in Hok. repeat (apply andb_prop in Hok as [Hok ?]).
+  unfold msg_ok in Hok. cbn [canon code token opts payload] in Hok. repeat (apply andb_prop in Hok as [Hok ?]).
   pose proof (blen_nonneg (token m)) as Ht0.
   destruct (rfc8323_len_bounds (blen data) Hn) as [Hnib Hextok].
   destruct (nibbles_split (fst (rfc8323_len (blen data))) (blen (token m)) Hnib ltac:(lia)) as (_ & _ & Hb0).
@@ -161,7 +187,7 @@ Proof.
   { rewrite Hb. apply length_roundtrip; lia. }
   assert (Htail : tail_ok (match payload m with [] => [] | _ :: _ => 255 :: payload m end) (payload m)).
   { destruct (payload m); [left; auto|right; reflexivity]. }
-  destruct (options_roundtrip (opts m) 0 od _ (payload m) (S (length data)) ltac:(assumption) Hod Htail) as (Hdec & Hodok & Hlen).
+  destruct (options_roundtrip (option_list (opts m)) 0 od _ (payload m) (S (length data)) ltac:(assumption) Hod Htail) as (Hdec & Hodok & Hlen).
   { unfold data. rewrite app_length. pose proof (options_encode_length _ _ _ Hod). lia. }
   pose proof (blen_nonneg ext) as He0.
   assert (Hpre : b = (b0 :: ext) ++ code m :: token m ++ data) by (rewrite Hb; reflexivity).
@@ -177,7 +203,7 @@ Proof.
     replace (blen ((b0 :: ext) ++ [code m]) + blen (token m)) with (blen (((b0 :: ext) ++ [code m]) ++ token m))
       by (rewrite (blen_app _ (token m)); reflexivity).
     rewrite app_assoc, bfrom_app.
-    unfold options_decode. change (od ++ match payload m with [] => [] | _ :: _ => 255 :: payload m end) with data in Hdec. rewrite Hdec. cbn [bind]. destruct m; reflexivity.
+    unfold options_decode. change (od ++ match payload m with [] => [] | _ :: _ => 255 :: payload m end) with data in Hdec. rewrite Hdec. cbn [bind]. reflexivity.
   - rewrite Hpre, bytes_ok_app, !bytes_ok_cons, bytes_ok_app.
     unfold data. rewrite bytes_ok_app, Hodok, Hextok.
     replace (byte_ok b0) with true by (unfold byte_ok; lia).
@@ -187,4 +213,12 @@ Proof.
     rewrite bytes_ok_cons. match goal with H : bytes_ok (x :: pl) = true |- _ => rewrite H end. reflexivity.
   - exists (2 + blen ext), (blen data). split; [exact Hhdr|]. split; [|lia].
     rewrite Hpre, blen_app, Hblen_pre, blen_cons, blen_app. lia.
+Qed.
+
+Lemma decode_serialize : forall m b, msg_ok m = true -> serialize m = Ok b ->
+  decode_message b = Ok m /\ bytes_ok b = true /\
+  exists a l, header b = Some (a, blen (token m), l) /\ a + blen (token m) + l = blen b /\ 2 <= a.
+Proof.
+  intros m b Hok Hser. pose proof (canon_ok m Hok) as Hc.
+  pose proof (decode_serialize_any m b ltac:(rewrite Hc; exact Hok) Hser) as H. rewrite Hc in H. exact H.
 Qed.
